@@ -232,9 +232,9 @@ def model_almost_eq(eng, st, args):
     d = v2 - v1
     ad = z3.If(d >= 0, d, -d)
     ssum = v1 + v2
-    q = d / ssum
-    aq = z3.If(q >= 0, q, -q)
-    return _o(st, z3.If(ssum == 0, ad < eps, z3.Or(aq < eps, ad < eps)))
+    asum = z3.If(ssum >= 0, ssum, -ssum)
+    # |d / ssum| < eps  <=>  |d| < eps * |ssum|  for ssum != 0: stated without the division (linear for a constant eps)
+    return _o(st, z3.If(ssum == 0, ad < eps, z3.Or(ad < eps * asum, ad < eps)))
 
 
 def dispatch(eng, st, body, callee, args):
